@@ -180,7 +180,7 @@ Lemma check_C14_spec c :
   check_C14 c = true <->
   match c with
   | CReader tr failed => reader_orderb false false tr = true /\ failed = false
-  | CWriter tr n => writer_orderb false false tr = true /\ n = 0
+  | CWriter tr n => writer_orderb false tr = true /\ n = 0
   | CWriterSem v0 tr => wfb v0 tr = true
   end.
 Proof.
@@ -195,13 +195,24 @@ Lemma accepted_writers_give_reader_guarantee v streams sched t1 t2 :
   reader_ok v (run_sched streams sched) t1 t2 = true.
 Proof. intros H Hle. apply reader_sees_closed_interleaved; assumption. Qed.
 
-(* writer shape: the snapshot is the last upload and no pack is left unindexed before it *)
-Lemma writer_order_snap_last tr : forall d, writer_orderb d true tr = true -> ~ In WPack tr /\ ~ In WIdx tr.
+(* writer shape: between a pack upload and a later snapshot upload there is an index upload *)
+Lemma writer_dirty_needs_index l : forall r, writer_orderb true (l ++ WSnap :: r) = true -> In WIdx l.
 Proof.
-  induction tr as [|o r IH]; intros d H; cbn; [tauto|].
-  destruct o; cbn [writer_orderb] in H; try discriminate.
-  - destruct d; [discriminate|]. destruct (IH _ H). split; intros [X | X]; try discriminate; tauto.
-  - destruct (IH _ H). split; intros [X | X]; try discriminate; tauto.
+  induction l as [|o l IH]; intros r H; cbn in H; [discriminate|].
+  destruct o; cbn [writer_orderb] in H.
+  - right. eapply IH; eauto.
+  - left; reflexivity.
+  - discriminate.
+  - right. eapply IH; eauto.
+Qed.
+
+Lemma writer_index_between l1 : forall d l2 r,
+  writer_orderb d (l1 ++ WPack :: l2 ++ WSnap :: r) = true -> In WIdx l2.
+Proof.
+  induction l1 as [|o l1 IH]; intros d l2 r H; cbn [app] in H.
+  - cbn [writer_orderb] in H. eapply writer_dirty_needs_index; eauto.
+  - destruct o; cbn [writer_orderb] in H; try (eapply IH; eauto; fail).
+    destruct d; [discriminate | eapply IH; eauto].
 Qed.
 
 (* the decoded-writer oracle separates: snapshot before its index entry / entry naming a pack not saved *)
